@@ -33,13 +33,6 @@ Proof.
 Qed.
 
 (* ---- the extents a pattern + dynamic values denote ---- *)
-Fixpoint fill (t : ity) (pat : pattern) (dv : list Z) : list Z :=
-  match pat with
-  | [] => []
-  | Some s :: pat' => wrap t s :: fill t pat' dv
-  | None :: pat' => match dv with v :: dv' => v :: fill t pat' dv' | [] => 0 :: fill t pat' [] end
-  end.
-
 Lemma fill_length t pat dv : length (fill t pat dv) = length pat.
 Proof. revert dv; induction pat as [|[s|] pat IH]; intros dv; cbn [fill length]; auto. destruct dv; cbn [length]; auto. Qed.
 
@@ -154,13 +147,6 @@ Proof.
       * rewrite app_length, ndyn_app. cbn. lia.
 Qed.
 
-(* the extents a pattern + all values denote: static positions win *)
-Fixpoint fill_all (t : ity) (pat : pattern) (av : list Z) : list Z :=
-  match pat, av with
-  | Some s :: pat', _ :: av' => wrap t s :: fill_all t pat' av'
-  | None :: pat', v :: av' => wrap t v :: fill_all t pat' av'
-  | _, _ => []
-  end.
 Lemma fill_pick t pat av : length av = length pat ->
   fill t pat (map (wrap t) (pick_dyn pat av)) = fill_all t pat av.
 Proof.
